@@ -158,7 +158,9 @@ def fam_failure(rng):
     allp += helpers
     n_wait = len(allp) - sum(1 for f in fails if f.get("callfail") and f["mode"] in ("queued", "service-before"))
     control = [["wait-running"]] + control + [["wait-count", "start", n_wait, 3], ["sleep", 0.03], ["set", "go"]]
-    return {"family": "failure", "payloads": allp, "before": before, "control": control, "watchdog": 12}
+    # in one scenario out of seven the runtime object has already been through a blocking run that ended by a failure
+    return {"family": "failure", "payloads": allp, "before": before, "control": control, "watchdog": 12,
+            "prior_failed_run": rng.random() < 0.15}
 
 
 def fam_termination(rng):
